@@ -295,7 +295,8 @@ pub fn run_e(ctx: &Ctx) -> u64 {
 const FOPS: [&str; 5] = ["hang &", "kill -s KILL %1", "kill -s KILL %2", "kill -s KILL %3", "JOBS >/dev/null"];
 
 fn dumps_with(hist: &[usize], jobs_cmd: &str) -> (Vec<String>, vsh::Run) {
-    let mut script = String::new();
+    // job control on: `kill %n` needs a job-controlled job
+    let mut script = String::from("set -m\n");
     for (k, op) in hist.iter().enumerate() {
         script.push_str(&format!("{} 2>/dev/null\njl {k}\n", FOPS[*op].replace("JOBS", jobs_cmd)));
     }
